@@ -212,3 +212,18 @@ Definition min_of (l : list N) : option N :=
   match l with [] => None | x :: r => Some (fold_left N.min r x) end.
 Definition max_of (l : list N) : option N :=
   match l with [] => None | x :: r => Some (fold_left N.max r x) end.
+
+(** [m.entry(k).and_modify(|e| *e = f e).or_insert(d)] on a map: the entry is updated when it
+    exists (the update may panic: [*e += x]), inserted with [d] when it does not and there is an
+    [or_insert]; without [or_insert] a missing key changes nothing *)
+Definition map_entry_update {V} (m : rmap V) (k : N) (f : V -> trap V) (d : option V) : trap (rmap V) :=
+  match map_get m k with
+  | Some e => v <- f e ;; Val (map_insert m k v)
+  | None => match d with Some v => Val (map_insert m k v) | None => Val m end
+  end.
+
+(** [m.retain(|k, _| keep k)] *)
+Definition map_retain {V} (m : rmap V) (keep : N -> bool) : rmap V := filter (fun e => keep (fst e)) m.
+
+(** [a.or(b)] on options *)
+Definition opt_or_else {A} (a b : option A) : option A := match a with Some _ => a | None => b end.
